@@ -39,6 +39,12 @@ pub use self::{
     protocol::{DEFAULT_PROTOCOL_NAME, ResponseError},
 };
 
+/// Verification hooks (only with `--cfg libp2p_verif`).
+#[cfg(libp2p_verif)]
+pub mod verif {
+    pub use super::behaviour::verif_filter_valid_addrs as filter_valid_addrs;
+}
+
 pub(crate) mod proto {
     #![allow(unreachable_pub)]
     include!("v1/generated/mod.rs");
